@@ -1,4 +1,7 @@
 import ConduitModel.Proofs.Prov
+import ConduitModel.Proofs.ProvFrame
+import ConduitModel.Proofs.ProvStore
+import ConduitModel.Props.C14
 
 /-!
 # C15 — importing a pipeline config converges to it, is idempotent, and fails atomically
@@ -14,15 +17,19 @@ Model: `Model/Prov.lean` over M6 (`Model/Ctl.lean`): Export, the actions builder
 actions with Do/Rollback, the import frame, `transactionalImport`, `Plan`/`ApplyPlan`. Theorems
 are for every state, configuration, failing store-operation index and code variant.
 
-Proved at full strength: idempotence (given convergence), store-level failure atomicity,
-position kept. Convergence itself (`export (import s c) = c` for every valid `c`) and
-memory-level failure atomicity are *not* proved in general: the code as found violates both
-(F5, F6, F8, and the connector re-creation on rollback, see the `…_counterexample`s, evaluated
-in the kernel); they are decided per history by the monitor on the model that the
-correspondence harness ties to the real `provisioning.Service`. The goal statements are kept:
+Proved at full strength: convergence (`C15_import_converges`: for every code variant carrying
+the F5/F6 repairs, every state whose references below the pipeline are intact — every state
+reachable by API calls and earlier imports, `C15_import_converges_reachable` —, every
+configuration the service accepts, no injected failure, pipeline not running: `ApplyPlan`
+succeeds and `Export` of the result is the configuration; store side
+`C15_import_converges_store`; what else changes / is removed `C15_import_frame`; the invariant is
+kept `C15_import_keeps_refs`), idempotence, store-level failure atomicity, position kept.
+Memory-level failure atomicity is *not* proved in general: the code violates it (F8, and the
+connector re-creation on rollback, see the `…_counterexample`s, evaluated in the kernel); it is
+decided per history by the monitor on the model that the correspondence harness ties to the real
+`provisioning.Service`. The code as found violates convergence (F5, F6: counterexamples kept as
+regression witnesses for the pre-fix flags). The goal statement that is kept open:
 
-    theorem C15_import_converges (v s c) (hv : cfgValid s.mem c) (hs : Imported s c.id) :
-      (applyPlan v c s).1 = .ok () ∧ Converged v (applyPlan v c s).2.mem c
     theorem C15_import_fail_atomic (v s c k) : (applyPlan v c s).1 ≠ .ok () → (applyPlan v c s).2.view = s.view
 -/
 namespace Conduit.Ctl
@@ -108,6 +115,181 @@ theorem C15_position_kept (v : Variant) (s : St) (c old : PipeCfg) (xo xn : Conn
         cases r with
         | error e => exact ⟨c', h1, h2⟩
         | ok u => cases u; simp only; split <;> exact ⟨c', h1, h2⟩
+
+/-! ## convergence -/
+
+/-- What `C15_import_converges` assumes.
+* `cond`, `copies`: the code variant carries the repairs of the two recorded findings (F6: a
+  processor `Condition` is exported and applied; F5: the connector update iterates over a copy) —
+  without them the statement is false (`C15_import_converges_counterexample_f5/_f6`);
+* `nofail`: no store failure is injected;
+* `refs`: the references below the pipeline are intact in the prior state (`PlRefs`: its
+  connectors exist and point back to it, their and its processors exist and point back to their
+  parent — the downward half of the C14 invariant `RefInv` for this one pipeline; it holds in
+  every state reachable by API calls, `C14_refs_reachable` + `plRefs_of_refs`, and is
+  re-established by every successful import, `C15_import_keeps_refs`; trivially true when the
+  pipeline does not exist yet);
+* `valid`: the configuration is one the provisioning service accepts (`cfgValid`: name non-empty,
+  not reserved, not taken by another pipeline; valid DLQ; connector types/plugins/names and
+  processor plugins/workers valid; connector ids and processor ids pairwise distinct);
+* `stopped`: the pipeline is not running (a running pipeline makes `ApplyPlan` refuse). -/
+structure ImportReady (v : Variant) (s : St) (c : PipeCfg) : Prop where
+  cond : CondOk v
+  copies : v.updConnCopies = true
+  nofail : NoFail s
+  refs : PlRefs s.mem c.id
+  valid : cfgValid s.mem c = true
+  stopped : ((s.mem.pls c.id).map (fun p => isRunningStatus p.status)).getD false = false
+
+/-- `ApplyPlan` under `ImportReady`: succeeds, memory is the closed-form effect of the action
+list, and a store that was a copy of memory is one again after the commit. -/
+theorem applyPlan_ok (v : Variant) (s : St) (c : PipeCfg) (old : Option PipeCfg) (h : ImportReady v s c)
+    (hex : exportPl v s.mem c.id = .ok old) :
+    ∃ s', applyPlan v c s = (.ok (), s') ∧ s'.mem = effAll v s.mem (build v 1 old c) ∧ NoFail s' ∧
+      (MemEqStore s → MemEqStore s') := by
+  have hready : ConvReady v s.mem c old := ⟨h.cond, h.copies, hex, h.valid, h.refs⟩
+  obtain ⟨hpre, _⟩ := converge_mem v 1 s.mem c old hready
+  have hplan : planSize v s.mem c = .ok (build v 1 old c).length := by unfold planSize; rw [hex]
+  unfold applyPlan
+  rw [hplan]
+  cases hlen : (build v 1 old c).length with
+  | zero =>
+    have hnil : build v 1 old c = [] := List.length_eq_zero_iff.1 hlen
+    exact ⟨s, rfl, by rw [hnil]; rfl, h.nofail, id⟩
+  | succ n =>
+    simp only [h.stopped, Bool.false_eq_true, if_false]
+    have hf : s.failsNow = false := by simp [St.failsNow, show s.failAt = none from h.nofail]
+    let s1 : St := { s with ctr := s.ctr + 1, tx := some s.kv }
+    have hn1 : NoFail s1 := h.nofail
+    obtain ⟨s2, e1, e2, e3⟩ := importPipeline_yields v c 1 s1 old hn1 hex hpre
+    have hf2 : s2.failsNow = false := by simp [St.failsNow, show s2.failAt = none from e3]
+    refine ⟨{ s2 with ctr := s2.ctr + 1, kv := s2.tx.getD s2.kv, tx := none }, ?_, e2, e3, ?_⟩
+    · unfold transactionalImport
+      simp only [hf, Bool.false_eq_true, if_false]
+      show (match importPipeline v c 1 s1 with
+            | (.error e, s') => (Except.error e, { s' with tx := none })
+            | (.ok (), s') => if s'.failsNow then (.error .st, { s' with ctr := s'.ctr + 1, tx := none })
+                else (.ok (), { s' with ctr := s'.ctr + 1, kv := s'.tx.getD s'.kv, tx := none })) = _
+      rw [e1]
+      simp only [hf2, Bool.false_eq_true, if_false]
+    · intro hm
+      obtain ⟨hkv, _⟩ := (memEqStore_iff s).1 hm
+      have ht1 : s1.tx = some (KV.ofMem s1.mem) := by show some s.kv = _; rw [hkv]
+      obtain ⟨t2, _⟩ := importPipeline_txAgree v c 1 s1 s2 hn1 ht1 e1
+      refine (memEqStore_iff _).2 ⟨?_, rfl⟩
+      show s2.tx.getD s2.kv = KV.ofMem s2.mem
+      rw [t2]; rfl
+
+/-- C15.import_converges — "importing a valid pipeline configuration succeeds and leaves the
+stored pipeline, connectors and processors (including order, settings, workers and conditions)
+equal to the configuration": for every code variant carrying the F5/F6 repairs, every prior
+state with intact references below the pipeline (every reachable one:
+`C15_import_converges_reachable`), every valid configuration, no injected failure, pipeline not
+running — `ApplyPlan` succeeds and the `Export` of the result *is*
+the configuration: pipeline name, description, DLQ, the connector list in order, every
+connector's type, plugin, name, settings and processor list in order, every processor's plugin,
+settings, workers and condition (the fields `C15_fact_field_classes` classifies as
+configuration; status, provisioning origin, connector position are state and not compared).
+Nothing is assumed about what the pipeline looked like before (absent, created by an earlier
+import, created through the API). Full strength. -/
+theorem C15_import_converges (v : Variant) (s : St) (c : PipeCfg) (h : ImportReady v s c) :
+    (applyPlan v c s).1 = .ok () ∧ Converged v (applyPlan v c s).2.mem c := by
+  obtain ⟨old, hex⟩ := exportPl_total v s.mem c.id h.refs
+  obtain ⟨s', e1, e2, _, _⟩ := applyPlan_ok v s c old h hex
+  obtain ⟨_, ht, _⟩ := converge_mem v 1 s.mem c old ⟨h.cond, h.copies, hex, h.valid, h.refs⟩
+  rw [e1]
+  refine ⟨rfl, ?_⟩
+  show exportPl v s'.mem c.id = .ok (some c)
+  rw [e2]
+  exact exportPl_of_target v h.cond.exported _ c ht
+
+/-- C15.import_converges, store side: if the store was a copy of memory (the C14 invariant
+`MemEqStore`), it is one again after the import's commit — so what a restarted server loads
+exports to the configuration as well. Full strength. -/
+theorem C15_import_converges_store (v : Variant) (s : St) (c : PipeCfg) (h : ImportReady v s c) (hm : MemEqStore s) :
+    MemEqStore (applyPlan v c s).2 ∧ Converged v (storeImage (applyPlan v c s).2).mem c := by
+  obtain ⟨old, hex⟩ := exportPl_total v s.mem c.id h.refs
+  obtain ⟨s', e1, _, _, e4⟩ := applyPlan_ok v s c old h hex
+  have hc := (C15_import_converges v s c h).2
+  rw [e1] at hc ⊢
+  have hm' : MemEqStore s' := e4 hm
+  refine ⟨hm', ?_⟩
+  have himg : (storeImage s').mem = s'.mem := by
+    obtain ⟨a, b, c', _⟩ := hm'
+    show ({ pls := s'.kv.pls, cns := s'.kv.cns, prs := s'.kv.prs, names := s'.mem.names } : Mem) = s'.mem
+    rw [← a, ← b, ← c']
+  show Converged v (storeImage s').mem c
+  rw [himg]; exact hc
+
+/-- C15.import_converges, what else changes: (1) every pipeline other than `c.id`, every
+connector and every processor whose id occurs neither in the previous (exported) configuration of
+the pipeline nor in `c` — in particular everything created through the API or by the import of
+another pipeline — is left exactly as it was; (2) every connector and processor of the previous
+configuration that `c` does not mention is gone. Full strength. -/
+theorem C15_import_frame (v : Variant) (s : St) (c : PipeCfg) (old : Option PipeCfg) (h : ImportReady v s c)
+    (hex : exportPl v s.mem c.id = .ok old) :
+    let m' := (applyPlan v c s).2.mem
+    (∀ j, j ≠ c.id → m'.pls j = s.mem.pls j) ∧
+    (∀ x, x ∉ cids (oldConns old) → x ∉ cids c.conns → m'.cns x = s.mem.cns x) ∧
+    (∀ y, y ∉ oldProcIds old → y ∉ c.procIds → m'.prs y = s.mem.prs y) ∧
+    (∀ o, old = some o → (∀ co ∈ o.conns, co.id ∉ cids c.conns → m'.cns co.id = none) ∧
+                          (∀ y ∈ o.procIds, y ∉ c.procIds → m'.prs y = none)) := by
+  obtain ⟨s', e1, e2, _, _⟩ := applyPlan_ok v s c old h hex
+  simp only [e1, e2]
+  obtain ⟨f1, f2, f3⟩ := build_frame v 1 s.mem c old
+  exact ⟨f1, f2, f3, fun o ho => by subst ho; exact build_gone v 1 s.mem c o⟩
+
+/-- C15.import_converges, the invariant it rests on is kept: after the import the references
+below the imported pipeline are intact whatever they were built from (so the next import of
+that pipeline — any configuration — starts from a state the theorem covers), and the references
+below every other pipeline stay intact if the configuration's ids are not in use under another
+pipeline (`CfgOwned`; the real service prefixes every entity id with the pipeline id). -/
+theorem C15_import_keeps_refs (v : Variant) (s : St) (c : PipeCfg) (h : ImportReady v s c) :
+    PlRefs (applyPlan v c s).2.mem c.id ∧ NoFail (applyPlan v c s).2 ∧
+    (DownRefs s.mem → CfgOwned s.mem c → DownRefs (applyPlan v c s).2.mem) := by
+  obtain ⟨old, hex⟩ := exportPl_total v s.mem c.id h.refs
+  obtain ⟨s', e1, e2, e3, _⟩ := applyPlan_ok v s c old h hex
+  have hready : ConvReady v s.mem c old := ⟨h.cond, h.copies, hex, h.valid, h.refs⟩
+  obtain ⟨_, t1, t2⟩ := converge_mem v 1 s.mem c old hready
+  rw [e1]
+  refine ⟨?_, e3, ?_⟩
+  · show PlRefs s'.mem c.id
+    rw [e2]; exact plRefs_of_target _ c t1 t2
+  · intro hd ho
+    show DownRefs s'.mem
+    rw [e2]; exact downRefs_import v 1 s.mem c old hready hd ho
+
+/-- the states the provisioning service sees: any state reached by management-API calls
+(outside the recorded F7 triggers, where the references are a theorem), then any number of
+imports — of any pipelines, with valid configurations whose ids are not in use under another
+pipeline, the pipeline not running — with no store failure. -/
+inductive ImportReach (v : Variant) : St → Prop
+  | api (h : List (Op × Option Nat)) : TriggerFreeRun v St.init h → ImportReach v (run v St.init h)
+  | imp (s : St) (c : PipeCfg) : ImportReach v s → cfgValid s.mem c = true → CfgOwned s.mem c →
+      ((s.mem.pls c.id).map (fun p => isRunningStatus p.status)).getD false = false →
+      ImportReach v (applyPlan v c s).2
+
+theorem run_nofail (v : Variant) : ∀ (h : List (Op × Option Nat)) (s : St), NoFail s → NoFail (run v s h)
+  | [], _, hs => hs
+  | (op, k) :: rest, s, _ => run_nofail v rest (exec v s op k).2 rfl
+
+theorem ImportReach.inv {v : Variant} (hc : CondOk v) (hcp : v.updConnCopies = true) {s : St} (h : ImportReach v s) :
+    NoFail s ∧ DownRefs s.mem := by
+  induction h with
+  | api h ht => exact ⟨run_nofail v h St.init rfl, downRefs_of_refs _ (C14_refs_reachable v h ht).1⟩
+  | imp s c _ hv ho hs ih =>
+    have hr : ImportReady v s c := ⟨hc, hcp, ih.1, ih.2 c.id, hv, hs⟩
+    obtain ⟨_, h2, h3⟩ := C15_import_keeps_refs v s c hr
+    exact ⟨h2, h3 ih.2 ho⟩
+
+/-- C15.import_converges over reachable states: "from any previously imported state" — after
+any history of API calls and any chain of earlier imports (`ImportReach`), importing a valid
+configuration of a pipeline that is not running succeeds and converges. -/
+theorem C15_import_converges_reachable (v : Variant) (hc : CondOk v) (hcp : v.updConnCopies = true)
+    (s : St) (hs : ImportReach v s) (c : PipeCfg) (hv : cfgValid s.mem c = true)
+    (hstop : ((s.mem.pls c.id).map (fun p => isRunningStatus p.status)).getD false = false) :
+    (applyPlan v c s).1 = .ok () ∧ Converged v (applyPlan v c s).2.mem c :=
+  C15_import_converges v s c ⟨hc, hcp, (hs.inv hc hcp).1, (hs.inv hc hcp).2 c.id, hv, hstop⟩
 
 /-! ## the code as found violates convergence / failure atomicity: witnesses -/
 
@@ -199,5 +381,65 @@ example : CfgNodup cfgA := ⟨by decide, by decide, by decide⟩
 
 /-- position kept applies: connector 11 persists from `cfgA` to `cfgB` with the same type. -/
 example : exportPl Variant.asFound (after Variant.asFound st0 cfgA).mem 1 = .ok (some cfgA) := by decide +kernel
+
+/-- executable form of `CfgOwned`. -/
+def cfgOwnedB (m : Mem) (c : PipeCfg) : Bool :=
+  (cids c.conns).all (fun x => match m.cns x with
+    | none => true
+    | some r => r.pipeline == c.id) &&
+  c.procIds.all (fun y => match m.prs y with
+    | none => true
+    | some q => (q.ptype == 2 && q.parent == c.id) ||
+        (q.ptype == 1 && match m.cns q.parent with
+          | none => false
+          | some r => r.pipeline == c.id))
+
+theorem cfgOwned_of_B (m : Mem) (c : PipeCfg) (h : cfgOwnedB m c = true) : CfgOwned m c := by
+  simp only [cfgOwnedB, Bool.and_eq_true, List.all_eq_true] at h
+  obtain ⟨h1, h2⟩ := h
+  constructor
+  · intro x hx r hr
+    have := h1 x hx
+    rw [hr] at this
+    simpa using this
+  · intro y hy q hq
+    have := h2 y hy
+    rw [hq] at this
+    simp only [Bool.or_eq_true, Bool.and_eq_true, beq_iff_eq] at this
+    rcases this with ⟨a, b⟩ | ⟨a, b⟩
+    · exact Or.inl ⟨a, b⟩
+    · refine Or.inr ⟨a, ?_⟩
+      cases hr : m.cns q.parent with
+      | none => rw [hr] at b; cases b
+      | some r => rw [hr] at b; exact ⟨r, rfl, by simpa using b⟩
+
+/-- the code variant with the recorded repairs satisfies the variant hypotheses of convergence
+(the code as found does not: F5, F6 above). -/
+example : CondOk Variant.repaired ∧ Variant.repaired.updConnCopies = true := ⟨⟨rfl, Or.inr rfl⟩, rfl⟩
+
+/-- `cfgA`/`cfgB` under a name no API-created pipeline of the witness history has. -/
+def cfgA2 : PipeCfg := { cfgA with name := 2 }
+def cfgB2 : PipeCfg := { cfgB with name := 2 }
+
+/-- the hypotheses of `C15_import_converges_reachable` are satisfiable, on a state that is
+neither empty nor converged: after the C14 witness history (an API-created pipeline with two
+connectors and three processors) `cfgA2` is imported next to it, then `cfgB2` (one processor
+fewer: a non-empty plan) is a valid import from that reachable state. -/
+example :
+    let v := Variant.repaired
+    let s1 := (applyPlan v cfgA2 (run v St.init witnessHistory)).2
+    ImportReach v s1 ∧ cfgValid s1.mem cfgB2 = true ∧
+    ((s1.mem.pls cfgB2.id).map (fun p => isRunningStatus p.status)).getD false = false ∧
+    planSize v s1.mem cfgB2 = .ok 2 ∧ (s1.mem.pls 0).isSome = true := by
+  refine ⟨?_, by decide +kernel, by decide +kernel, by decide +kernel, by decide +kernel⟩
+  exact .imp _ _ (.api witnessHistory ⟨rfl, rfl, rfl, rfl, rfl, rfl, rfl, trivial⟩) (by decide +kernel)
+    (cfgOwned_of_B _ _ (by decide +kernel)) (by decide +kernel)
+
+/-- and the conclusion, evaluated on that instance (agrees with the theorem). -/
+example :
+    let v := Variant.repaired
+    let s1 := (applyPlan v cfgA2 (run v St.init witnessHistory)).2
+    (applyPlan v cfgB2 s1).1 = .ok () ∧ Converged v (applyPlan v cfgB2 s1).2.mem cfgB2 ∧
+    ((applyPlan v cfgB2 s1).2.mem.prs 16).isNone = true := by decide +kernel
 
 end Conduit.Ctl
